@@ -304,6 +304,16 @@ func runHist(vectors, out string, shards, only int) {
 				}
 				return u
 			}
+			// the sizes of the instance's tables after every operation of the history (hooked builds)
+			states := []proj.M{}
+			{
+				u := newHistInstance(kind, w)
+				for _, op := range vec.H {
+					u.apply(op)
+					es, ds := u.tableSizes()
+					states = append(states, proj.M{"e": es, "d": ds})
+				}
+			}
 			probes := []proj.M{}
 			{
 				// a stream whose definition of Small lists the fields in the other order
@@ -328,7 +338,7 @@ func runHist(vectors, out string, shards, only int) {
 					"du": P.Project(gu.r).JSON(), "df": P.Project(gf.r).JSON(), "derru": gu.derr, "derrf": gf.derr})
 			}
 			va, ba, ma := w.snapshot()
-			ev := proj.M{"ev": "hist", "kind": kind, "ops": vec.H, "probes": probes, "vb": vb, "va": va, "bb": bb, "ba": ba, "mb": mb, "ma": ma,
+			ev := proj.M{"ev": "hist", "kind": kind, "ops": vec.H, "probes": probes, "vb": vb, "va": va, "bb": bb, "ba": ba, "mb": mb, "ma": ma, "states": states, "hooked": haveTableSizes,
 				"label": fmt.Sprintf("%s/len%d", kind, len(vec.H))}
 			if len(samples) < 3 && len(vec.H) >= 3 {
 				samples = append(samples, proj.M{"kind": kind, "history": vec.H})
